@@ -22,6 +22,13 @@ const DecoyTag = "zzdecoy"
 // of an identity is poisoned by the decoy first. isDecoy tells the decoy's output files apart.
 // ok is false when the request cannot carry a decoy (a generated file without go_package).
 func WithDecoy(req *pluginpb.CodeGeneratorRequest) (out *pluginpb.CodeGeneratorRequest, isDecoy func(name string) bool, ok bool) {
+	return WithDecoyX(req, false)
+}
+
+// WithDecoyX: with sameServiceNames the decoy's services keep their names, too (two API versions that both
+// declare UserService.GetUser): whatever a generator keys by service and method NAME is poisoned as well.
+// Not for generators that name their output files after the bare service name.
+func WithDecoyX(req *pluginpb.CodeGeneratorRequest, sameServiceNames bool) (out *pluginpb.CodeGeneratorRequest, isDecoy func(name string) bool, ok bool) {
 	gen := map[string]bool{}
 	for _, n := range req.FileToGenerate {
 		gen[n] = true
@@ -90,7 +97,9 @@ func WithDecoy(req *pluginpb.CodeGeneratorRequest) (out *pluginpb.CodeGeneratorR
 			decoyEnum(e)
 		}
 		for _, s := range d.Service {
-			s.Name = proto.String("Zzdecoy" + s.GetName())
+			if !sameServiceNames {
+				s.Name = proto.String("Zzdecoy" + s.GetName())
+			}
 			if s.Options != nil && proto.HasExtension(s.Options, sebufhttp.E_ServiceConfig) {
 				sc := proto.Clone(proto.GetExtension(s.Options, sebufhttp.E_ServiceConfig).(*sebufhttp.ServiceConfig)).(*sebufhttp.ServiceConfig)
 				sc.BasePath = "/" + DecoyTag + "/" + strings.TrimPrefix(sc.BasePath, "/")
